@@ -122,6 +122,21 @@ void bfH(const json &in, json &out) {
                                         [&] { return new FormT(E1::template make<T>(fs), E2::template make<T>(fs)); });
           out["bf_v"] = Codec<T>::enc((*fp)(a, b));
         });
+        // the other constructors / guides: BilinearForm{O2} (identity on the left), BilinearForm{}, ScalarProduct
+        if (in.at("e1").at("k") == "Id") {
+          guarded(out, "bf1", [&] {
+            const bspline::integration::BilinearForm f{E2::template make<T>(fs)};
+            out["bf1_v"] = Codec<T>::enc(f.evaluate(a, b));
+          });
+          if (in.at("e2").at("k") == "Id") {
+            guarded(out, "sp", [&] {
+              const bspline::integration::ScalarProduct sp{};
+              const bspline::integration::BilinearForm dflt{};
+              out["sp_v"] = Codec<T>::enc(sp(a, b));
+              out["dflt_v"] = Codec<T>::enc(dflt(a, b));
+            });
+          }
+        }
         guarded(out, "sw", [&] {
           const bspline::integration::BilinearForm f{E2::template make<T>(fs), E1::template make<T>(fs)};
           out["sw_v"] = Codec<T>::enc(f.evaluate(b, a));
